@@ -171,7 +171,16 @@ def run_case(case, workdir):
             with poisoned(MODS, 0):
                 def hist():
                     m = Mandoline(path, fields=["all"], serial=serial, verbose=0)
-                    return [m.slice(fformat="return") for _ in range(3)]
+                    res = []
+                    for _ in range(3):
+                        r = m.slice(fformat="return")
+                        res.append({k_: (np.array(v_, copy=True) if isinstance(v_, np.ndarray) else v_) for k_, v_ in r.items()})
+                        # a caller that post-processes what it was given IN PLACE (unit conversion, masking): the returned arrays
+                        # are the caller's, later requests must not see what was done to them
+                        for v_ in r.values():
+                            if isinstance(v_, np.ndarray) and v_.flags.writeable:
+                                v_ *= -1000.0
+                    return res
                 st, val = call(hist)
         rec.exe([dh, "history", serial], nontrivial=True, trans=3)
         sub = {"history": "three slice() calls on one Mandoline object", "serial": serial}
@@ -180,8 +189,12 @@ def run_case(case, workdir):
         else:
             cov, lvl = ref.covering(with_level=True)
             for k, r in enumerate(val):
-                if not all(bits_equal(r[nm], cov[..., names.index(nm)].T) for nm in names) or not np.array_equal(np.asarray(r["grid_level"]), lvl.T):
-                    rec.fail("history_dependent", dict(sub, call=k), "call %d on the same object differs from the covering grid" % k)
+                ex_ = ref.geo_lo[0] + (np.arange(ref.domain[-1][0]) + 0.5) * ref.dx[-1][0]
+                ey_ = ref.geo_lo[1] + (np.arange(ref.domain[-1][1]) + 0.5) * ref.dx[-1][1]
+                if not all(bits_equal(r[nm], cov[..., names.index(nm)].T) for nm in names) or not np.array_equal(np.asarray(r["grid_level"]), lvl.T) \
+                        or not (np.allclose(r["x"], ex_, rtol=1e-12, atol=0) and np.allclose(r["y"], ey_, rtol=1e-12, atol=0)):
+                    rec.fail("history_dependent", dict(sub, call=k), "call %d on the same object differs from the covering grid / its coordinates "
+                             "(the caller changed the arrays of the earlier calls in place)" % k)
     rec.sample({"desc": desc, "ops": "slice(fformat='return') x field lists x limits x serial/parallel"})
     return rec.result()
 
